@@ -8,7 +8,9 @@ PROPS = "C20"
 PER_SHARD = 12
 RULE = ("fresh servers (Unix and TCP): clients connect and send requests, the application receives and HOLDS some of them, the "
         "server is dropped at varying points (no client, idle clients, held requests, right after an accept), then a new client "
-        "tries to connect (a refusal must come within 1 s), the UNIX socket path is checked, and the held requests are answered "
+        "tries to connect (a refusal must come within 1 s), the UNIX socket path is checked, the listening socket must have "
+        "disappeared from the kernel's socket table within 1 s (also with a pipelined request queued behind a held one of the "
+        "same connection), and the held requests are answered "
         "and must reach their clients; compared with the extracted accept-loop/Drop model run eagerly; and the real TaskPool: a "
         "burst of never-ending tasks, release, then the 5 s idle period: the pool's thread count must be back at or below the "
         "minimum (4) although 8..30 threads existed, and later dispatches must still start; non-trivial = the server is dropped "
@@ -27,6 +29,12 @@ def gen(tier, rng):
             yield "sd %s c1,r,a,c2,r,d,p,x3,a" % kind, {"scenario": "answered-then-held"}
             yield "sd %s c1,r,c2,r,d,a,x5,p" % kind, {"scenario": "answer-before-probe"}
             yield "sd %s c1,r,d,w300,a,x7" % kind, {"scenario": "answer-late"}
+            # the listening socket itself (as the kernel lists it) must be gone, not only unreachable
+            yield "sd %s l,d,l,x1,p" % kind, {"scenario": "listener-closed-idle"}
+            yield "sd %s c1,c2,r,r,l,d,l,p,x4,a" % kind, {"scenario": "listener-closed-held"}
+            # a pipelined request still queued behind a held one of the same connection when the server is dropped
+            yield "sd %s C1,w%d,r,d,w200,x9,l,p,a" % (kind, rng.choice([50, 150])), {"scenario": "queued-behind-held"}
+            yield "sd %s C1,w100,r,c2,w50,d,x9,l,a,p" % kind, {"scenario": "queued-behind-held-2"}
     # the real pool under the controllable runtime: bursts, release, the idle period in VIRTUAL time, later
     # dispatches, dropping the pool; lock-step replay through the model
     ns = 40 if tier == "quick" else 600
@@ -75,6 +83,19 @@ def oracle(case, obs):
                 return "FAIL a connection attempt after drop(server) was not refused within 1 s (%s)" % m.group(2)
         if "p=there" in obs:
             return "FAIL the UNIX socket path still exists after drop(server)"
+        ls = re.findall(r"l=(\w+)", obs)
+        ops = f[2].split(",")
+        seen_d = False
+        k = 0
+        for op in ops:
+            if op == "d":
+                seen_d = True
+            elif op == "l":
+                if k < len(ls) and seen_d and ls[k] != "closed":
+                    return "FAIL the listening socket is still open 1 s after drop(server) (the kernel still lists it)"
+                if k < len(ls) and not seen_d and ls[k] != "listening":
+                    return "FAIL set-up: no listening socket found before drop(server)"
+                k += 1
         for m in re.finditer(r"a=(\S+)", obs):
             if m.group(1) == "-":
                 continue
